@@ -258,6 +258,10 @@ func Write(format string, s *astisub.Subtitles, w io.Writer) (err error, pan str
 		err = s.WriteToWebVTT(w)
 	case "ttml":
 		err = s.WriteToTTML(w)
+	case "ttml-tab": // the same writer with a per-call option
+		err = s.WriteToTTML(w, astisub.WriteToTTMLWithIndentOption("\t"))
+	case "ttml-noindent":
+		err = s.WriteToTTML(w, astisub.WriteToTTMLWithIndentOption(""))
 	case "ssa":
 		err = s.WriteToSSA(w)
 	case "stl":
